@@ -56,11 +56,12 @@ VARS = {
     "symlink_out": f"{T}/base/dir/link.py",            # -> $T/out/vars_out.py
     "symlinkdir_out": f"{T}/base/dir/linkdir/vars_out.py",   # linkdir -> $T/out
     "prefix": f"{T}/base/dirX/vars_px.py",
+    "othercase": f"{T}/base/DIR/vars_case.py",          # a directory differing from the allowed one in letter case only (case-sensitive file system)
     "dotdot": f"{T}/base/dir/../vars_up.py",
     "link_in": f"{T}/out/link_in.py",                   # -> $T/base/dir/vars_in.py (inside after resolution)
     "basefile": f"{T}/base/dir",                        # the base itself (a directory: cannot be executed)
 }
-REAL_VARS_FILES = ["base/dir/vars_in.py", "base/dir/sub/vars_sub.py", "out/vars_out.py", "base/dirX/vars_px.py", "base/vars_up.py"]
+REAL_VARS_FILES = ["base/dir/vars_in.py", "base/dir/sub/vars_sub.py", "out/vars_out.py", "base/dirX/vars_px.py", "base/vars_up.py", "base/DIR/vars_case.py"]
 BASE = f"{T}/base/dir"
 PIPEFILE = f"{T}/base/dir/pipeline.yml"
 DATA = f"{T}/data/vals.txt"
@@ -388,7 +389,7 @@ def subst(x, t):
 
 
 def make_fixture(t):
-    for d in ("base/dir/sub", "base/dirX", "out", "data", "markers"):
+    for d in ("base/dir/sub", "base/dirX", "base/DIR", "out", "data", "markers"):
         os.makedirs(os.path.join(t, d))
     for rel in REAL_VARS_FILES:
         marker = os.path.join(t, "markers", "vars_" + rel.replace("/", "_"))
